@@ -183,73 +183,75 @@ static void with_watchdog(long hang_code, Fn &&fn) {
 }
 
 struct Interval {
+    static constexpr int N = 3;                 // up to three interval generators with independent stop sources
     scheduler sch;
-    std::stop_source src;
-    std::optional<generator<std::size_t>> gen;
-    std::unique_ptr<future<std::size_t>> tick;
-    bool finished = false;
+    std::stop_source src[N];
+    std::optional<generator<std::size_t>> gen[N];
+    std::unique_ptr<future<std::size_t>> tick[N];
 
-    long tick_status() {
-        if (!tick) return 0;
-        if (!tick->ready()) return 0;
-        return tick->_state == future_common::State::not_value ? 2 : 1;
+    long tick_status(int g) {
+        if (!tick[g]) return 0;
+        if (!tick[g]->ready()) return 0;
+        return tick[g]->_state == future_common::State::not_value ? 2 : 1;
     }
-    void emit(long kind) { vh::print_obs({0, kind, (long)sch._scheduled.size()}); }
+    // status, result of the call, array size, state of every generator's tick future
+    void emit(long kind) {
+        std::vector<long> v{0, kind, (long)sch._scheduled.size()};
+        for (int g = 0; g < N; g++) v.push_back(tick_status(g));
+        vh::print_obs(v);
+    }
 
     void exec(const std::vector<long> &op) {
-        if (op.size() != 1) { vh::print_obs({1}); return; }
+        if (op.empty() || op.size() > 2 || op[0] < 1 || op[0] > 4) { vh::print_obs({1}); return; }
+        long gi = op.size() == 2 ? op[1] : 0;
+        if (gi < 0 || gi >= N) { vh::print_obs({1}); return; }
+        int g = (int)gi;
         switch (op[0]) {
             case 1:
-                if (gen) { vh::print_obs({1}); return; }
-                gen.emplace(sch.interval(std::chrono::hours(1), src.get_token()));
+                if (gen[g]) { vh::print_obs({1}); return; }
+                gen[g].emplace(sch.interval(std::chrono::hours(1), src[g].get_token()));
                 emit(0);
                 return;
             case 2: {
-                if (!gen || finished || (tick && !tick->ready())) { vh::print_obs({1}); return; }
-                tick.reset();
-                tick.reset(new future<std::size_t>((*gen)()));
-                long s = tick_status();
-                if (s == 2) finished = true;
-                emit(s);
+                if (!gen[g] || tick_status(g) == 2 || (tick[g] && !tick[g]->ready())) { vh::print_obs({1}); return; }
+                tick[g].reset();
+                tick[g].reset(new future<std::size_t>((*gen[g])()));
+                emit(tick_status(g));
                 return;
             }
             case 3: {
-                long before = tick_status();
-                src.request_stop();
-                long after = tick_status();
-                if (after == 2) finished = true;
+                long before = tick_status(g);
+                src[g].request_stop();
+                long after = tick_status(g);
                 emit(after != before ? after : 0);
                 return;
             }
             case 4: {
-                long before = tick_status();
                 scheduler::expired e = sch.get_expired(std::chrono::system_clock::now() + std::chrono::hours(48));
                 long r = 0;
                 if (std::holds_alternative<scheduler::promise>(e)) {
                     std::get<scheduler::promise>(e)();
                     r = 1;
                 }
-                long after = tick_status();
-                (void)before;
-                if (after == 2) finished = true;
                 emit(r);
                 return;
             }
-            default:
-                vh::print_obs({1});
         }
     }
     ~Interval() {
         // a generator still sleeping must be woken before it can be destroyed
-        if (tick && !tick->ready()) {
-            with_watchdog(-998, [&] { src.request_stop(); });   // a self-deadlock here must not stall the whole run
-            for (int i = 0; i < 4 && !tick->ready(); i++) {
-                scheduler::expired e = sch.get_expired(tp_t::max());
-                if (std::holds_alternative<scheduler::promise>(e)) std::get<scheduler::promise>(e)();
-            }
+        for (int g = 0; g < N; g++) {
+            if (tick[g] && !tick[g]->ready())
+                with_watchdog(-998, [&] { src[g].request_stop(); });   // a self-deadlock here must not stall the whole run
         }
-        tick.reset();
-        gen.reset();
+        for (int i = 0; i < 4 * N; i++) {
+            bool pending = false;
+            for (int g = 0; g < N; g++) if (tick[g] && !tick[g]->ready()) pending = true;
+            if (!pending) break;
+            scheduler::expired e = sch.get_expired(tp_t::max());
+            if (std::holds_alternative<scheduler::promise>(e)) std::get<scheduler::promise>(e)();
+        }
+        for (int g = 0; g < N; g++) { tick[g].reset(); gen[g].reset(); }
     }
 };
 
@@ -352,8 +354,82 @@ static void run_stop_race(const std::vector<long> &op, bool use_pool) {
     vh::print_obs({0, returned, far_state});
 }
 
+// op [5 fl mask o1..ok]: sleepers at t0 + o_i ms; the worker is blocked on the FIRST deadline (it has passed the
+// "sched_wait" point after the first schedule call); the sleepers selected by mask are cancelled from this thread while it
+// is blocked (remove() pops / empties them without notifying); then every deadline passes.
+// observation: status, number of sleeps that were seen completed BEFORE their own time point, final state of each sleep
+static std::atomic<long> sd_visits{0};
+static void count_point(const char *id) {
+    if (std::strcmp(id, "sched_wait") == 0) sd_visits.fetch_add(1);
+}
+
+static void run_cancel_blocked(const std::vector<long> &op) {
+    bool use_pool = op[1] == 1;
+    long mask = op[2];
+    size_t k = op.size() - 3;
+    std::unique_ptr<thread_pool> pool;
+    if (use_pool) pool.reset(new thread_pool(2));
+    std::vector<std::unique_ptr<future<void>>> futs(k);
+    std::vector<tp_t> tps(k);
+    std::vector<int> ids(k);
+    std::vector<long> state(k, 0);
+    long early = 0;
+    std::thread thr;
+    sd_visits.store(0);
+    cocls::verif::get_hooks().point = &count_point;
+    {
+        scheduler sch;
+        if (use_pool) sch.start(*pool); else sch.start(thr);
+        // the worker is idle on the empty heap
+        for (int i = 0; i < 2000 && sd_visits.load() < 1; i++) std::this_thread::sleep_for(std::chrono::milliseconds(1));
+        long v0 = sd_visits.load();
+        auto t0 = std::chrono::system_clock::now();
+        for (size_t i = 0; i < k; i++) {
+            tps[i] = t0 + std::chrono::milliseconds(op[3 + i]);
+            futs[i].reset(new future<void>(sch.sleep_until(tps[i], &ids[i])));
+            if (i == 0)   // the worker has looked at the heap again: it now waits for the first deadline
+                for (int j = 0; j < 150 && sd_visits.load() <= v0; j++) std::this_thread::sleep_for(std::chrono::milliseconds(1));
+        }
+        std::this_thread::sleep_for(std::chrono::milliseconds(5));     // ... and has entered wait_until
+        for (size_t i = 0; i < k; i++)
+            if (mask & (1L << i)) { bool c = sch.cancel(&ids[i]); (void)c; }
+        auto limit = tps[k - 1] + std::chrono::milliseconds(1500);
+        size_t done = 0;
+        std::vector<bool> seen(k, false);
+        while (done < k && std::chrono::system_clock::now() < limit) {
+            for (size_t i = 0; i < k; i++) {
+                if (seen[i] || !futs[i]->ready()) continue;
+                seen[i] = true; done++;
+                state[i] = status_of(*futs[i]);
+                if (state[i] == 1 && std::chrono::system_clock::now() < tps[i]) early++;
+            }
+            std::this_thread::sleep_for(std::chrono::microseconds(500));
+        }
+    }
+    cocls::verif::get_hooks().point = nullptr;
+    if (thr.joinable()) thr.join();
+    std::vector<long> v{0, early};
+    v.insert(v.end(), state.begin(), state.end());
+    vh::print_obs(v);
+}
+
+static bool cancel_blocked_ok(const std::vector<long> &op) {
+    if (op.size() < 5 || op.size() > 7 || op[0] != 5 || (op[1] != 0 && op[1] != 1)) return false;
+    long prev = 0;
+    for (size_t i = 3; i < op.size(); i++) {
+        if (op[i] < prev + 200) return false;
+        prev = op[i];
+    }
+    if (prev > 1000) return false;
+    return op[2] >= 0 && op[2] < (1L << (op.size() - 3));
+}
+
 static void run_thread(const vh::Case &cs) {
     for (auto &op : cs.ops) {
+        if (!op.empty() && op[0] == 5) {
+            if (cancel_blocked_ok(op)) run_cancel_blocked(op); else vh::print_obs({1});
+            continue;
+        }
         if (op.size() == 2 && (op[0] == 2 || op[0] == 4) && (op[1] == 0 || (op[1] >= 10000 && op[1] <= 100000))) {
             run_stop_race(op, op[0] == 4);
             continue;
